@@ -544,3 +544,118 @@ def rule_checkall(ctx):
                             res.inst(ikey, s["sp"]["file"], s["sp"]["line"], "ok", "examines " + ", ".join(required), nontrivial=True)
     res.require_floor(15)
     return res
+
+
+def rule_instance(ctx):
+    """R-INSTANCE: instance tables are consulted only after the instance has been created (or found)"""
+    fx = ctx.fx
+    res = RuleResult("R-INSTANCE", "monomorphic instances of declared types are created on demand (Ty::check -> create_instance); the checker's "
+                     "instance tables (`types`, `ctors`, `dtors` of the symbol table, and lookup_ty_for_ctor/dtor over them) are therefore "
+                     "consulted only where the instance is known to exist: every path to such an access passes an instantiation "
+                     "(Ty::check, check_equality, check_args, lookup_ty_template_for_*), or the successful arm of an earlier access, or the "
+                     "access is the first half of the lookup-or-instantiate idiom (its failure arm instantiates from the template). An "
+                     "access without that rejects a well-typed program whose type simply has not been used yet")
+    INST = {"lookup_ty_template_for_ctor", "lookup_ty_template_for_dtor", "check_equality", "check_args", "create_instance", "is_instance"}
+    TABLES = {"types", "ctors", "dtors"}
+    n = 0
+    for k, f in sorted(fx.fns.items()):
+        if f["crate"] != "fun" or "{promoted" in k or "{closure" in k:
+            continue
+        if k.split("::")[-1] != "check" or not (f.get("impl_trait") or "").endswith("typing::check::Check"):
+            continue
+        fn = Fn(f)
+        flow = Flow(fn)
+        defs = fn.defs()
+        sites = []      # (block, description, result local)
+        establishing = set()
+        for bi, t in fn.calls():
+            nm = t.get("callee_name")
+            ck = t.get("callee_key") or ""
+            if (nm in INST and ck.startswith("fun::")) or (nm == "check" and "types::Ty::check" in ck):
+                establishing.add(bi)
+                continue
+            desc = None
+            if nm in ("get", "contains_key", "index", "get_mut") and t["args"] and (t.get("callee_self_adt") or "").endswith("HashMap"):
+                r = op_root(t["args"][0])
+                flds = set()
+                for o in (flow.origins(r, ()) if r is not None else ()):
+                    if o[0] == "arg":
+                        flds |= set(o[2])
+                if flds & TABLES:
+                    desc = "symbol_table.%s.%s" % (sorted(flds & TABLES)[0], nm)
+            elif nm in ("lookup_ty_for_ctor", "lookup_ty_for_dtor"):
+                desc = nm
+            if desc:
+                sites.append((bi, desc, t["dest"]["l"] if t.get("dest") and not t["dest"]["p"] else None, t))
+        # success arms of accesses establish existence; failure arm that instantiates = the idiom
+        idiom = set()
+        for bi, desc, res_l, t in sites:
+            if res_l is None:
+                continue
+            for b2, blk in enumerate(f["blocks"]):
+                tt = blk["term"]
+                if tt["k"] != "switch":
+                    continue
+                d = tt.get("discr") or {}
+                pl = d.get("pl") if isinstance(d, dict) else None
+                if not pl:
+                    continue
+                hit = False
+                for dd in defs.get(pl["l"], []):
+                    rv = dd.get("rv") or {}
+                    if rv.get("k") == "discr" and rv.get("pl") and rv["pl"]["l"] == res_l:
+                        hit = True
+                if not hit:
+                    continue
+                is_lookup = desc.startswith("lookup_ty_for")
+                # Result: Ok = 0, Err = 1; Option: None = 0, Some = 1
+                ok_val = 0 if is_lookup else 1
+                for val, tg in tt.get("targets") or []:
+                    if val == ok_val:
+                        establishing.add(tg)
+                    else:
+                        # failure arm: does it instantiate before anything else?
+                        seen, work = set(), [tg]
+                        while work:
+                            x = work.pop()
+                            if x in seen:
+                                continue
+                            seen.add(x)
+                            tx = f["blocks"][x]["term"]
+                            if tx["k"] == "call" and tx.get("callee_name") in ("lookup_ty_template_for_ctor", "lookup_ty_template_for_dtor"):
+                                idiom.add(bi)
+                                break
+                            if tx["k"] in ("return",) or len(seen) > 6:
+                                continue
+                            work.extend(fn.succ[x])
+                oth = tt.get("otherwise")
+                if oth is not None and ok_val not in [v for v, _ in (tt.get("targets") or [])]:
+                    establishing.add(oth)
+        for bi, desc, res_l, t in sites:
+            n += 1
+            ikey = "%s@%s:%d" % (k, desc, sum(1 for s_ in sites if s_[0] < bi and s_[1] == desc))
+            if bi in idiom:
+                res.inst(ikey, t["sp"]["file"], t["sp"]["line"], "ok", "lookup-or-instantiate idiom")
+                continue
+            # can the site be reached from the entry without passing an establishing block?
+            seen, work, reach = set(), [0], False
+            while work:
+                x = work.pop()
+                if x in seen or x not in fn.reach:
+                    continue
+                if x == bi:
+                    reach = True
+                    break
+                if x in establishing:
+                    continue
+                seen.add(x)
+                work.extend(fn.succ[x])
+            if reach:
+                res.inst(ikey, t["sp"]["file"], t["sp"]["line"], "violation")
+                res.violate(ikey, "%s consults %s (line %d) on a path on which nothing has created or found the instance of the type: a "
+                            "well-typed program whose type has not been instantiated yet is rejected as `undefined`" % (k.split(" as ")[0].lstrip("<").split("::")[-1], desc, t["sp"]["line"]),
+                            t["sp"]["file"], t["sp"]["line"])
+            else:
+                res.inst(ikey, t["sp"]["file"], t["sp"]["line"], "ok", "instance established on every path")
+    res.require_floor(6)
+    return res
